@@ -86,6 +86,10 @@ func selftestImpl(verifDir, repo, prop string) map[string]any {
 			entries = append(entries, mutant{ID: "benign/" + strings.TrimSuffix(filepath.Base(d), ".diff"), Props: []string{prop}, patch: d, Benign: true})
 		}
 	}
+	knownLimit := map[string]string{}
+	if b, err := os.ReadFile(filepath.Join(verifDir, "mutants", "benign", "KNOWN_LIMITS.json")); err == nil {
+		_ = json.Unmarshal(b, &knownLimit)
+	}
 	exe, _ := os.Executable()
 	type res struct {
 		ID      string `json:"id"`
@@ -173,6 +177,8 @@ func selftestImpl(verifDir, repo, prop string) map[string]any {
 				r.Outcome, r.Detail = "analysis-failure", firstLine(string(out))
 			case m.Benign && code == 0:
 				r.Outcome = "silent (as required)"
+			case m.Benign && knownLimit[strings.TrimPrefix(m.ID, "benign/")] != "":
+				r.Outcome, r.Detail = "reported (known limit of the analysis, see DESIGN.md 12.8)", fired
 			case m.Benign:
 				r.Outcome, r.Detail = "FALSE ALARM", fired
 			case code == 1:
@@ -192,6 +198,8 @@ func selftestImpl(verifDir, repo, prop string) map[string]any {
 			n["as_expected"]++
 		case r.Outcome == "skipped":
 			n["skipped"]++
+		case strings.HasPrefix(r.Outcome, "reported (known limit"):
+			n["known_limit"]++
 		default:
 			n["unexpected"]++
 			bad = append(bad, fmt.Sprintf("%s: %s %s", r.ID, r.Outcome, r.Detail))
@@ -202,6 +210,7 @@ func selftestImpl(verifDir, repo, prop string) map[string]any {
 		"entries":     len(entries),
 		"as_expected": n["as_expected"],
 		"skipped":     n["skipped"],
+		"known_limit": n["known_limit"],
 		"unexpected":  n["unexpected"],
 		"problems":    bad,
 		"results":     results,
